@@ -247,7 +247,13 @@ class CommandLineJob(Job):
             # Get from pidpath file
             from experimaestro.connectors import Process
 
-            pinfo = json.loads(self.pidpath.read_text())
+            try:
+                pinfo = json.loads(self.pidpath.read_text())
+            except ValueError:
+                # The file was created but its content was never written
+                # (scheduler killed in between): nothing to take back
+                logger.warning("Ignoring the unreadable PID file %s", self.pidpath)
+                return None
             p = Process.fromDefinition(self.launcher.connector, pinfo)
             if p is None:
                 return None
